@@ -377,6 +377,53 @@ pub fn run_c01(tier: &str) -> i32 {
             });
         }
     }
+    // the same over suit rotations: equal classes made in different suits are equal hands
+    {
+        let rot: Vec<[u8; 4]> = (0..4u8).map(|k| [k % 4, (k + 1) % 4, (k + 2) % 4, (k + 3) % 4]).collect();
+        let mut hs: Vec<(u16, [u8; 7], MadeHand)> = vec![];
+        let mut other = 0usize;
+        for (c, w) in witness.iter().enumerate() {
+            if let Some(w) = w {
+                let cat = m.category_of_class(c as u16);
+                let take = if cat == 5 || cat == 8 { true } else { other += 1; other % 10 == 0 };
+                if take {
+                    for r in &rot {
+                        let mut h = [0u8; 7];
+                        for i in 0..7 {
+                            h[i] = relabel(w[i], r);
+                        }
+                        if let Ok(mh) = catch(move || MadeHand::from(arr(&all_cards(), &h))) {
+                            hs.push((c as u16, h, mh));
+                        }
+                    }
+                }
+            }
+        }
+        let nh = hs.len();
+        let outs = par_map(nh, |i| {
+            let (ci, _, hi) = hs[i];
+            let mut bad = vec![];
+            for (j, &(cj, _, hj)) in hs.iter().enumerate() {
+                let ok = (hi == hj) == (ci == cj) && (hi < hj) == (ci < cj) && (hi > hj) == (ci > cj) && hi.cmp(&hj) == ci.cmp(&cj) && hi.partial_cmp(&hj) == Some(ci.cmp(&cj));
+                if !ok && bad.len() < 2 {
+                    bad.push(j);
+                }
+            }
+            bad
+        });
+        for (i, bad) in outs.into_iter().enumerate() {
+            for j in bad {
+                rep.violation(Violation {
+                    key: format!("compare {} vs {}", cards_text(&hs[i].1), cards_text(&hs[j].1)),
+                    sub: "compare-across-suits".into(),
+                    case: json!({"a": hs[i].1.to_vec(), "b": hs[j].1.to_vec()}),
+                    expected: json!({"class_a": hs[i].0, "class_b": hs[j].0, "ordering": format!("{:?}", hs[i].0.cmp(&hs[j].0))}),
+                    observed: json!("==, <, >, cmp or partial_cmp disagrees with the integer comparison of the true classes"),
+                });
+            }
+        }
+        rep.sub("compare-across-suits", "all ordered pairs over the witnesses of every flush / straight-flush class and every 10th other class, each in the four suit rotations: hands of one class made in different suits are equal, and ==, <, >, cmp, partial_cmp agree with the classes", (nh * nh) as u64, nh as u64, false, json!({"hands": nh}));
+    }
     rep.sub(
         "compare",
         "all ordered pairs of one witness hand per reachable class: ==, <, >, <=, cmp, partial_cmp agree with integer comparison of the M-rank classes (smaller = wins, equal = tie)",
